@@ -84,7 +84,10 @@ Step(e) ==
             /\ oSent' = oSent \o e.sent
             /\ UNCHANGED <<oEra, oSess, oReqs, oPend, oLast, oD>>
     [] e.op = "SlogEnabled" ->
-         /\ Follow(SlogEnabled(e.f, e.k, e.c, e.sl))
+         /\ IF e.en = EnabledCode(e.c, e.sl) THEN Follow(SlogEnabled(e.f, e.k, e.c, e.sl))
+            ELSE \* drift: keep following with what the code did
+                 /\ pend' = IF e.en THEN [on |-> TRUE, f |-> e.f, c |-> e.c, sl |-> e.sl, thrE |-> ThrOf(e.c), raced |-> FALSE] ELSE PendOff
+                 /\ UNCHANGED <<era, sess, reqs, adm, del, flight>>
          /\ Check(l, "drift", e.en = EnabledCode(e.c, e.sl))
          /\ Quiet(e)
          /\ Check(l, "Enabled", EnabledOK(OThr(e.c), e.sl, e.en))
